@@ -26,3 +26,11 @@ package autocert
 //@ requires dr.m.RenewBefore >= 0
 //@ ensures result >= 0
 //@ canary ensures result > 0
+// the jitter window (checked where renewAt has just been computed): with
+// T = the threshold and J = min(T/10, 1h), renewal is placed in
+// [NotAfter - T, NotAfter - T + J], and exactly at NotAfter - T when J == 0
+//@ let life = inst(notAfter) - inst(notBefore)
+//@ let T = thr(dr.m.RenewBefore, life)
+//@ assert_at "renewWait := renewAt.Sub" inst(renewAt) >= inst(notAfter) - T && inst(renewAt) <= inst(notAfter) - T + min(T/10, 3600000000000)
+//@ assert_at "renewWait := renewAt.Sub" implies(T >= 10, inst(renewAt) < inst(notAfter) - T + min(T/10, 3600000000000))
+//@ canary assert_at "renewWait := renewAt.Sub" inst(renewAt) == inst(notAfter) - T
